@@ -23,6 +23,9 @@ pub enum Tamper {
     TokenId(u32),
     /// secured by a channel whose keys were derived from other nonces
     ForeignKeys,
+    /// secured on an earlier connection of the same channel object: the receiver had a token issued and renewed, was cleared
+    /// (`clear_security_token`, what the client does when it reconnects) and got a new token with new nonces
+    EarlierConnection,
     /// asymmetric only: signed by another private key / another sender certificate in the header / wrong receiver thumbprint
     OtherSigner,
     OtherSenderCert,
@@ -170,6 +173,46 @@ fn check(ctx: &Ctx, c: &Case) -> PResult {
             bad = b;
             name = "foreign-keys".into();
         }
+        Tamper::EarlierConnection => {
+            if c.asymmetric {
+                return Ok(());
+            }
+            // first connection: token 1 issued, then renewed to token 2 with new nonces
+            let (mut c1, mut s1) = fixtures::channel_pair(policy, mode, ck, sk, &fixtures::nonce_for(policy, 40), &fixtures::nonce_for(policy, 41));
+            let (n2c, n2s) = (fixtures::nonce_for(policy, 42), fixtures::nonce_for(policy, 43));
+            for (ch, local, remote) in [(&mut c1, &n2c, &n2s), (&mut s1, &n2s, &n2c)] {
+                ch.set_token_id(1);
+                ch.set_token_id(2);
+                ch.set_local_nonce(local);
+                ch.set_remote_nonce(remote);
+                ch.derive_keys();
+            }
+            let (old_sender, mut receiver) = if client_sends { (c1, s1) } else { (s1, c1) };
+            let Ok(b) = secure_one(&old_sender, &msg, 1) else { return Ok(()) };
+            bad = b;
+            // the connection is gone; the same channel object is used for the next one
+            receiver.clear_security_token();
+            receiver.set_security_token(ChannelSecurityToken { channel_id: 7, token_id: 1, created_at: DateTime::now(), revised_lifetime: 60_000 });
+            let (mut fresh_c, mut fresh_s) = fixtures::channel_pair(policy, mode, ck, sk, &cn, &sn);
+            fresh_c.set_token_id(1);
+            fresh_s.set_token_id(1);
+            if client_sends {
+                receiver.set_local_nonce(&sn);
+                receiver.set_remote_nonce(&cn);
+            } else {
+                receiver.set_local_nonce(&cn);
+                receiver.set_remote_nonce(&sn);
+            }
+            receiver.derive_keys();
+            // the reconnected receiver works: a chunk of the new connection is accepted
+            let fresh_sender = if client_sends { fresh_c } else { fresh_s };
+            let Ok(ok) = secure_one(&fresh_sender, &msg, 1) else { return Ok(()) };
+            if ctx.guard(|| receiver.verify_and_remove_security(&ok))?.is_err() {
+                return ctx.fail("control/reconnected-receiver-rejects", format!("{:?}/{:?}: the receiver rejects a chunk of its new connection", policy, mode));
+            }
+            to = receiver;
+            name = "earlier-connection".into();
+        }
         Tamper::OtherSigner | Tamper::OtherSenderCert | Tamper::WrongThumbprint => {
             if !c.asymmetric {
                 return Ok(());
@@ -239,6 +282,7 @@ fn tamper() -> impl Strategy<Value = Tamper> {
         2 => any::<u16>().prop_map(Tamper::SpliceTail),
         1 => any::<u32>().prop_map(Tamper::TokenId),
         1 => Just(Tamper::ForeignKeys),
+        1 => Just(Tamper::EarlierConnection),
         1 => Just(Tamper::OtherSigner),
         1 => Just(Tamper::OtherSenderCert),
         1 => Just(Tamper::WrongThumbprint),
@@ -259,7 +303,7 @@ fn every_position(tier: Tier) -> Box<dyn Iterator<Item = Case>> {
 pub fn def() -> PropDef {
     PropDef {
         id: "C08",
-        rule: "a valid secured chunk (symmetric MSG in the 10 secure policy/mode pairs, asymmetric OPN per policy) plus one mutation: single bit flip (anywhere, and stratified over message header / security header / first block / last block / signature), truncation and extension with and without patching message_size, spliced tail of another valid chunk, other token id, keys from other nonces, other signer, other sender certificate, wrong receiver thumbprint; thorough walks every byte position; oracle: control chunk accepted, mutated chunk never passes verification; non-trivial = mutated bytes differ from the original; distinct = distinct case",
+        rule: "a valid secured chunk (symmetric MSG in the 10 secure policy/mode pairs, asymmetric OPN per policy) plus one mutation: single bit flip (anywhere, and stratified over message header / security header / first block / last block / signature), truncation and extension with and without patching message_size, spliced tail of another valid chunk, other token id, keys from other nonces, a chunk of an earlier connection replayed to a cleared and re-issued receiver, other signer, other sender certificate, wrong receiver thumbprint; thorough walks every byte position; oracle: control chunk accepted, mutated chunk never passes verification; non-trivial = mutated bytes differ from the original; distinct = distinct case",
         assumptions: &["a panic on a mutated chunk is C09's subject and is counted here, not treated as an acceptance", "symmetric token ids are compared only through the signature (the header is inside the signed range)"],
         abort_possible: false,
         parts: |tier| {
